@@ -18,17 +18,19 @@ type partSrc struct {
 }
 
 type partOp struct {
-	Op  string  `json:"op"`
-	T   int     `json:"t"`
-	X   int     `json:"x"`
-	F   int     `json:"f"`
-	W   int     `json:"w"`
-	NT  int     `json:"nt"`
-	Ro  bool    `json:"ro"`
-	Lin bool    `json:"lin"`
-	K   []int   `json:"k"`
-	V   int     `json:"v"`
-	S   partSrc `json:"s"`
+	Op   string  `json:"op"`
+	T    int     `json:"t"`
+	X    int     `json:"x"`
+	F    int     `json:"f"`
+	W    int     `json:"w"`
+	NT   int     `json:"nt"`
+	Ro   bool    `json:"ro"`
+	Lin  bool    `json:"lin"`
+	K    []int   `json:"k"`
+	V    int     `json:"v"`
+	S    partSrc `json:"s"`
+	At   int     `json:"at"`
+	Kind string  `json:"kind"`
 }
 
 func mergeVal(o, n int) int { return (o*3 + n) % 11 }
@@ -232,6 +234,27 @@ func (st *partState) exec(op partOp) []Ev {
 			x.All(yield)
 		}
 		return []Ev{{"op": "all", "s": srcEv(op.S), "items": items}}
+	case "allw":
+		// Txn.All with a callback that writes to the same transaction at element number At
+		x, ok := st.txns[op.X]
+		if !ok {
+			return skip
+		}
+		items := [][]any{}
+		n := 0
+		x.All(func(k []byte, v int) bool {
+			items = append(items, []any{B(k), v})
+			n++
+			if n == op.At {
+				if op.Kind == "insert" {
+					x.Insert(key, op.V)
+				} else {
+					x.Delete(key)
+				}
+			}
+			return true
+		})
+		return []Ev{{"op": "allw", "x": op.X, "at": op.At, "kind": op.Kind, "k": op.K, "v": op.V, "items": items}}
 	case "next":
 		it, ok := st.iters[op.F]
 		if !ok {
